@@ -5,7 +5,7 @@
 set -u
 SD="$1"; LABEL="$2"; WT="/tmp/cw/$LABEL"
 mkdir -p /tmp/cw
-git -C /repo worktree add -q --detach "$WT" HEAD || exit 3
+git -C /repo worktree add -q --detach "$WT" "${3:-HEAD}" || exit 3
 cd "$WT"
 OUT="$SD/confirm.log"
 {
@@ -16,7 +16,7 @@ git apply "$SD/patch.diff" || { echo "PATCH DOES NOT APPLY"; }
 echo "-- demo WITH the change"
 PYTHONPATH="$WT" timeout 900 /venv/bin/python "$SD/demo.py" >/tmp/cw/$LABEL.demo1.out 2>&1; echo "exit=$?"; tail -5 /tmp/cw/$LABEL.demo1.out
 echo "-- suite WITH the change"
-PYTHONPATH="$WT" timeout 2400 /venv/bin/python -m pytest -q -p no:cacheprovider -n 8 --timeout=900 tests 2>&1 | tail -8
+PYTHONPATH="$WT" timeout 2400 /venv/bin/python -m pytest -q -p no:cacheprovider -n ${CONFIRM_JOBS:-8} --timeout=900 tests 2>&1 | tail -8
 } > "$OUT" 2>&1
 cd /
 git -C /repo worktree remove --force "$WT"
